@@ -407,7 +407,7 @@ func unexported(e Elem) Field   { return Field{Elem: e, Skip: true} }
 
 var baseScalars = []Elem{sc(Int32), sc(String), sc(Bool), sc(Bytes), sc(Int64), sc(Uint64), sc(Float64), sc(Int), sc(Uint), sc(Uint32), sc(Float32), arr(8), arr(1), arr(9)}
 
-var taggedScalars = []Elem{enc(Int32, "zigzag32"), enc(Int64, "zigzag64"), enc(Int, "zigzag64"), enc(Uint32, "fixed32"), enc(Uint64, "fixed64"), enc(Float32, "fixed32"), enc(Float64, "fixed64"), enc(Int64, "varint"), arr(0)}
+var taggedScalars = []Elem{enc(Int32, "zigzag32"), enc(Int64, "zigzag64"), enc(Int, "zigzag64"), enc(Uint32, "fixed32"), enc(Uint64, "fixed64"), enc(Float32, "fixed32"), enc(Float64, "fixed64"), enc(Int64, "varint"), arr(0), enc(Int32, "fixed32"), enc(Int64, "fixed64")}
 
 // inner messages used by struct-valued fields (depth 1)
 func innerMsgs() []Elem {
